@@ -9,34 +9,39 @@ import numpy as np
 import vlib
 from vlib import fbits, bitsf
 
-LEVEL_TEXT = ('Lean 4 theorems about the executable propagation-energy model at ℂ/ℝ: a unitary dft2 over one full period '
-              '(α = 1/K, 1/L with K, L at least the input size, K ≠ L allowed, any integer offset and real shift) conserves Σ|·|²; '
-              'an evaluated window only selects samples of the transform at integer frequency coordinates, so nested windows '
-              'capture 0 ≤ E(W₁) ≤ E(W₂) ≤ Σ|f|² and intensity is pointwise non-negative; fftshift∘fft2(ortho)∘ifftshift equals the '
-              'centred unitary dft2 for even and odd sizes, so the FFT path conserves energy; normalize_power yields power p. '
-              'The same model is run at doubles against propagate_dft / propagate_fft / normalize_power on every check.')
-LEVEL_NOTE = ('Partial only in this sense: energy of a *sum* of several fields is proved for fields given as one embedded array '
-              '(several fields reduce to it by linearity, C03/C06, not restated here). Trusted: np.fft.fft2(norm="ortho") is the '
-              'unitary DFT with origin at index 0 and fftshift/ifftshift follow their documented index maps (contracts written in '
-              'Model/Energy.lean); np.dot/np.exp as in C01; floating-point rounding is not modelled.')
+LEVEL_TEXT = ('Lean 4 theorems at ℂ/ℝ, stated over the C02 propagation model (window kernel Gen.dftWindow regenerated from propagate.py) and '
+              'the dft2 model tied to fourier.py by the regenerated wiring: the fields propagate_dft produces are samples of one function of '
+              'the integer frequency coordinate; for any number of fields on the wavefront canvas, any output extent / mask box / '
+              'propagation shape and any set of output samples inside one period (α = 1/K, 1/L, K, L ≥ canvas, K ≠ L allowed) the summed '
+              'intensity is ≤ Σ|total input field|², with equality over the whole period; nested sample sets are monotone; intensity ≥ 0; a '
+              'tilted field keeps its energy over the displaced period; fftshift∘fft2(ortho)∘ifftshift equals the centred unitary dft2 for '
+              'even and odd sizes (so the FFT path conserves energy); normalize_power yields power p. The same models run at doubles '
+              'against propagate_dft / propagate_fft / Wavefront.intensity / insert / normalize_power on every check.')
+LEVEL_NOTE = ('Trusted, stated plainly: the fft2 contract `fft2ortho` is written with the model\'s own dft2 (offset ⌊n/2⌋, shift −⌊n/2⌋ '
+              'cancelling the centring) and proved equal to the textbook (1/√(mn)) Σ x[a,b] e^{−2πi(ak/m+bl/n)}; that NumPy\'s '
+              'fft2(norm="ortho") computes that sum, and that fftshift/ifftshift are the stated index maps, is assumed and only observed '
+              'differentially. Wavefront.intensity = |Wavefront.field|² and reduce keeping the total are C07/C06 theorems, cited not '
+              'restated; differently tilted overlapping fields are not covered by an energy theorem (their Σ|field|² is not the input '
+              'power). np.dot/np.exp as in C01; floating-point rounding is not modelled.')
 TECHNIQUE = 'Lean 4 proof (roots-of-unity orthogonality, Finset sums) over a generic executable model + differential correspondence'
-GEN = []
+GEN = ['FourierWiring', 'Window', 'Extent']
 OPS = ['C01', 'C05']
 RULE = ('cases: wavefronts of shape 1..5 x 1..5 (one full field, or 2-3 sub-fields with offsets, possibly overlapping), complex '
         'Gaussian data, oversample 1..4, full period K x L = (shape·os) with K ≥ rows, L ≥ cols drawn independently per axis; '
         'propagate_dft on the full period, on a smaller centred window (shape), and on a window nested in it (smaller shape / '
-        'prop_shape / off-centre mask box); propagate_fft full and cropped, with and without scratch; normalize_power of complex '
+        'prop_shape / off-centre mask box), pupil→image and image→pupil, scalar and per-axis input sampling dx, untilted / common tilt (integer + sub-pixel, incl. the displaced full period) / per-field sub-pixel tilts, Wavefront.insert with weight ≠ 1; propagate_fft full and cropped, with and without scratch; normalize_power of complex '
         'arrays and of pupil amplitudes that are then imaged. distinct = (kind, field shapes/offsets, K, L, os, windows); '
         'non-trivial = not (square, isotropic, single field) i.e. outside what the test-suite samples')
 TRUSTED = ['np.fft.fft2(norm="ortho") is the unitary DFT with origin at index 0; np.fft.fftshift / ifftshift follow their documented '
            'index maps (modelled in Model/Energy.lean, observed through the correspondence)',
            'np.dot / np.exp / np.abs / np.sum as written in the model; Wavefront.intensity merges coincident output fields (C06)']
-UNPROVEN = ['energy conservation is proved for one input array with an integer offset (and window monotonicity for any list of '
-            'fields); that several fields equal one embedded array follows by linearity (C03/C06) and is not restated here',
-            '"images to total p" for a normalised pupil is the composition normalize_power_power ∘ dft_full_period_energy through '
-            'Plane.multiply (C07), which is not modelled here; it is evaluated by the oracle']
-ASSUMPTIONS = ['commensurate sampling: 1/α is an integer number of samples per axis, at least the input size; output grid = one period',
-               'fields carry no tilt; windows lie inside the full period']
+UNPROVEN = ['"images to total p" for a normalised pupil is the composition normalize_power_power ∘ propagate_dft_energy through Plane.multiply '
+            '(C07: |exp(iφ)| = 1 on the mask), which is not composed here; it is evaluated by the oracle',
+            'energy for several fields carrying different tilts (interference between differently displaced transforms) has no theorem; '
+            'the generator gives overlapping fields a common tilt and checks disjoint ones by the oracle',
+            'Wavefront.insert(out, weight) = out + weight·intensity is evaluated by the oracle only']
+ASSUMPTIONS = ['commensurate sampling: 1/α is an integer number of samples per axis, at least the wavefront shape',
+               'sample sets lie inside one period; all fields lie on the wavefront canvas (Fits)']
 
 TOL = 1e-9
 
@@ -65,7 +70,13 @@ def _fields(rng, wshape):
     return out
 
 def _phys(rng):
-    return {'wl': float(rng.uniform(4e-7, 2e-6)), 'z': float(rng.uniform(0.5, 20)), 'dx': float(rng.uniform(1e-4, 1e-2))}
+    dx = float(rng.uniform(1e-4, 1e-2))
+    if rng.integers(0, 2): dx = [dx, float(rng.uniform(1e-4, 1e-2))]          # per-axis input sampling
+    return {'wl': float(rng.uniform(4e-7, 2e-6)), 'z': float(rng.uniform(0.5, 20)), 'dx': dx}
+
+def _dx(c):
+    d = c['phys']['dx']
+    return (d, d) if not isinstance(d, list) else tuple(d)
 
 def _sub(rng, s):
     """a shape ≤ s componentwise (≥ 1)"""
@@ -95,7 +106,12 @@ def _case(rng, kmax):
                   'via': 'fft' if rng.integers(0, 2) else 'dft'})
         return c
     c['fields'] = _fields(rng, (m, n))
+    if rng.integers(0, 4) == 0: c['ptype'] = 'image'                          # image -> pupil direction
     if kind == 'dft':
+        if rng.integers(0, 2): c['weight'] = float(rng.uniform(0.2, 5.0))
+        t = int(rng.integers(0, 5))
+        if t == 0: c['tilt'] = {'kind': 'common', 'shift': [float(rng.uniform(-3.7, 3.7)), float(rng.uniform(-3.7, 3.7))]}
+        elif t == 1: c['tilt'] = {'kind': 'subpixel', 'shifts': None}
         w2 = _sub(rng, s) if rng.integers(0, 4) else list(s)
         how = ['shape', 'prop_shape', 'mask'][int(rng.integers(0, 3))]
         S = [w2[0] * os_, w2[1] * os_]
@@ -111,6 +127,20 @@ def _case(rng, kmax):
         sizes = [S[0] * S[1]] + ([(w1['box'][1] - w1['box'][0]) * (w1['box'][3] - w1['box'][2])] if how == 'mask'
                                  else [w1['shape'][0] * w1['shape'][1] * os_ * os_])
         if len(c['fields']) > 1 and (min(sizes) == 1 or s[0] * s[1] * os_ * os_ == 1): c['fields'] = c['fields'][:1]
+        if c.get('tilt', {}).get('kind') == 'subpixel':
+            c['tilt']['shifts'] = [[float(rng.uniform(-0.95, 0.95)), float(rng.uniform(-0.95, 0.95))] for _ in c['fields']]
+            # differently tilted fields are different plane waves: Σ|field|² is only the input power when their supports are
+            # disjoint (no interference term); overlapping fields get one common sub-pixel tilt
+            def ext(f): return (f['off'][0] - f['shape'][0] // 2, f['off'][0] - f['shape'][0] // 2 + f['shape'][0],
+                                f['off'][1] - f['shape'][1] // 2, f['off'][1] - f['shape'][1] // 2 + f['shape'][1])
+            es = [ext(f) for f in c['fields']]
+            if any(a[0] < b[1] and b[0] < a[1] and a[2] < b[3] and b[2] < a[3] for i, a in enumerate(es) for b in es[i + 1:]):
+                c['tilt']['shifts'] = [list(c['tilt']['shifts'][0]) for _ in c['fields']]
+        if 'tilt' in c and len(c['fields']) > 1 and min(S) * os_ < 2 * os_ + 8:
+            pass
+        if c.get('tilt', {}).get('kind') == 'common' and len(c['fields']) > 1:
+            # a displaced window may shrink to one sample: keep one field there (C06 scope, as above)
+            c['fields'] = c['fields'][:1]
     else:
         c['crop'] = _sub(rng, s) if rng.integers(0, 2) else None
         c['scratch'] = [int(rng.integers(0, 4)), int(rng.integers(0, 4))] if rng.integers(0, 3) == 0 else None
@@ -124,7 +154,7 @@ def signature(c):
     base = f"{c['kind']} {c['wshape']} os={c['os']} full={c['full']}"
     if c['kind'] == 'norm': return base + f" p={c['power']:.6g} via={c['via']} cplx={c['amp_im'] is not None}"
     fs = ' '.join(f"{f['shape']}@{f['off']}" for f in c['fields'])
-    if c['kind'] == 'dft': return base + f" {fs} w2={c['w2']} w1={c['w1']}"
+    if c['kind'] == 'dft': return base + f" {fs} w2={c['w2']} w1={c['w1']} t={c.get('tilt')} w={c.get('weight')} p={c.get('ptype')}"
     return base + f" {fs} crop={c['crop']} scratch={c['scratch']}"
 
 def nontrivial(c):
@@ -139,6 +169,10 @@ def tags(c):
     if K > c['wshape'][0] or L > c['wshape'][1]: t.append('period>input')
     if c['kind'] != 'norm' and len(c['fields']) > 1: t.append('multi-field')
     if c['kind'] == 'dft': t.append('w1:' + c['w1']['how'])
+    if c.get('ptype') == 'image': t.append('image->pupil')
+    if isinstance(c['phys']['dx'], list): t.append('per-axis-dx')
+    if 'weight' in c: t.append('insert-weight')
+    if 'tilt' in c: t.append('tilt:' + c['tilt']['kind'])
     if c['kind'] == 'fft':
         if c['crop']: t.append('fft:crop')
         if c['scratch']: t.append('fft:scratch')
@@ -150,15 +184,32 @@ def tags(c):
 def _fdata(f): return (np.array(f['re']) + 1j * np.array(f['im'])).reshape(f['shape'])
 
 def _du(c):
-    p = c['phys']
-    return (p['wl'] * p['z'] / (p['dx'] * c['full'][0]), p['wl'] * p['z'] / (p['dx'] * c['full'][1]))
+    p = c['phys']; dx = _dx(c)
+    return (p['wl'] * p['z'] / (dx[0] * c['full'][0]), p['wl'] * p['z'] / (dx[1] * c['full'][1]))
+
+class _FixedShift:
+    """tilt-interface stub: adds a prescribed focal-plane displacement (x, y); Field.shift turns it into (row, col) samples"""
+    def __init__(self, x, y): self.x, self.y = x, y
+    def shift(self, xs=0, ys=0, z=0, wavelength=None, **kw): return xs + self.x, ys + self.y
+
+def _shifts(c):
+    """total (row, col) shift of every field in output samples"""
+    t = c.get('tilt')
+    if not t: return [[0.0, 0.0] for _ in c['fields']]
+    if t['kind'] == 'common': return [list(t['shift']) for _ in c['fields']]
+    return [list(x) for x in t['shifts']]
 
 def _wavefront(c):
     import lentil
     from lentil.field import Field
-    p = c['phys']
-    w = lentil.Wavefront.empty(wavelength=p['wl'], pixelscale=p['dx'], focal_length=p['z'], shape=tuple(c['wshape']), ptype=lentil.pupil)
-    w.data = [Field(data=_fdata(f), pixelscale=p['dx'], offset=list(f['off'])) for f in c['fields']]
+    p = c['phys']; dx = _dx(c); du = _du(c); os_ = c['os']
+    w = lentil.Wavefront.empty(wavelength=p['wl'], pixelscale=dx, focal_length=p['z'], shape=tuple(c['wshape']),
+                               ptype=lentil.image if c.get('ptype') == 'image' else lentil.pupil)
+    w.data = []
+    for f, (sr, sc) in zip(c['fields'], _shifts(c)):
+        # Field.shift: (row, col) = (-(y / du0 * os), x / du1 * os)
+        tilt = [_FixedShift(sc * du[1] / os_, -sr * du[0] / os_)] if (sr, sc) != (0.0, 0.0) else None
+        w.data.append(Field(data=_fdata(f), pixelscale=dx, offset=list(f['off']), tilt=tilt))
     return w
 
 def _I(w):
@@ -181,7 +232,17 @@ def impl(c):
             r0, r1, c0, c1 = w1d['box']
             mask = np.zeros((c['w2'][0] * os_, c['w2'][1] * os_)); mask[r0:r1, c0:c1] = 1
             w1 = lentil.propagate_dft(_wavefront(c), pixelscale=du, shape=tuple(c['w2']), mask=mask, oversample=os_)
-        return {'full': _I(full), 'w2': _I(w2), 'w1': _I(w1)}
+        res = {'full': _I(full), 'w2': _I(w2), 'w1': _I(w1)}
+        if 'weight' in c:
+            acc = np.full(tuple(np.asarray(full.shape)), 0.25)
+            got = full.insert(acc, weight=c['weight'])
+            res['weighted'] = {'shape': list(got.shape), 'v': [float(x) for x in (np.asarray(got) - 0.25).ravel()]}
+        if c.get('tilt', {}).get('kind') == 'common':
+            mg = _margin(c)
+            big = lentil.propagate_dft(_wavefront(c), pixelscale=du, shape=(c['full'][0] + mg[0], c['full'][1] + mg[1]),
+                                       prop_shape=tuple(c['full']), oversample=os_)
+            res['tfull'] = _I(big)
+        return res
     if c['kind'] == 'fft':
         K, L = c['full'][0] * os_, c['full'][1] * os_
         kw = {}
@@ -199,7 +260,7 @@ def impl(c):
         a = lentil.util.normalize_power(amp + 1j * np.array(c['amp_im']).reshape(m, n), c['power'])
         return {'a': {'re': [float(x) for x in a.real.ravel()], 'im': [float(x) for x in a.imag.ravel()]}}
     a = lentil.util.normalize_power(amp, c['power'])
-    pupil = lentil.Pupil(amplitude=a, opd=np.array(c['opd']).reshape(m, n), pixelscale=p['dx'], focal_length=p['z'])
+    pupil = lentil.Pupil(amplitude=a, opd=np.array(c['opd']).reshape(m, n), pixelscale=_dx(c), focal_length=p['z'])
     w = lentil.Wavefront(wavelength=p['wl']) * pupil
     if c['via'] == 'dft': out = lentil.propagate_dft(w, pixelscale=du, shape=tuple(c['full']), oversample=os_)
     else: out = lentil.propagate_fft(w, pixelscale=du, oversample=os_)
@@ -210,21 +271,40 @@ def impl(c):
 def _fld_req(f):
     return {'shape': f['shape'], 'off': f['off'], 're': [fbits(x) for x in f['re']], 'im': [fbits(x) for x in f['im']]}
 
+def _margin(c):
+    """extra output shape (per axis, in detector pixels) so that the period displaced by the common tilt stays on the canvas"""
+    sh = c['tilt']['shift']; os_ = c['os']
+    return [2 * (-(-int(abs(np.fix(sh[0]))) // os_)) + 2, 2 * (-(-int(abs(np.fix(sh[1]))) // os_)) + 2]
+
+def _window(S, obox, P, fix):
+    """evaluated window of propagate_dft in canvas index coordinates: out box ∩ (prop box of size P centred at fix) ∩ canvas;
+    None when empty. Independent restatement of the extent logic (origin at floor(n/2))."""
+    out = []
+    for k in (0, 1):
+        lo = max(obox[2 * k], S[k] // 2 + fix[k] - P[k] // 2, 0)
+        hi = min(obox[2 * k + 1], S[k] // 2 + fix[k] - P[k] // 2 + P[k], S[k])
+        if lo >= hi: return None
+        out += [lo, hi]
+    return tuple(out)
+
 def _boxes(c):
-    """[(name, canvas shape, box in canvas index coordinates)] for the three propagate_dft calls"""
+    """[(name, canvas shape, window in canvas index coordinates or None)] for the propagate_dft calls of the case"""
     os_ = c['os']
+    fix = [int(np.fix(x)) for x in _shifts(c)[0]]          # all fields of a case share the integer part
     K, L = c['full'][0] * os_, c['full'][1] * os_
     S2 = (c['w2'][0] * os_, c['w2'][1] * os_)
-    out = [('full', (K, L), (0, K, 0, L)), ('w2', S2, (0, S2[0], 0, S2[1]))]
+    whole = lambda S: (0, S[0], 0, S[1])
+    out = [('full', (K, L), _window((K, L), whole((K, L)), (K, L), fix)), ('w2', S2, _window(S2, whole(S2), S2, fix))]
     w1 = c['w1']
     if w1['how'] == 'shape':
-        S1 = (w1['shape'][0] * os_, w1['shape'][1] * os_); out.append(('w1', S1, (0, S1[0], 0, S1[1])))
+        S1 = (w1['shape'][0] * os_, w1['shape'][1] * os_); out.append(('w1', S1, _window(S1, whole(S1), S1, fix)))
     elif w1['how'] == 'prop_shape':
-        P = (w1['shape'][0] * os_, w1['shape'][1] * os_)
-        r0 = S2[0] // 2 - P[0] // 2; c0 = S2[1] // 2 - P[1] // 2
-        out.append(('w1', S2, (r0, r0 + P[0], c0, c0 + P[1])))
+        P = (w1['shape'][0] * os_, w1['shape'][1] * os_); out.append(('w1', S2, _window(S2, whole(S2), P, fix)))
     else:
-        out.append(('w1', S2, tuple(w1['box'])))
+        out.append(('w1', S2, _window(S2, tuple(w1['box']), S2, fix)))
+    if c.get('tilt', {}).get('kind') == 'common':
+        mg = _margin(c); Sb = ((c['full'][0] + mg[0]) * os_, (c['full'][1] + mg[1]) * os_)
+        out.append(('tfull', Sb, _window(Sb, whole(Sb), (K, L), fix)))
     return out
 
 def requests(c, io):
@@ -232,9 +312,10 @@ def requests(c, io):
     K, L = c['full'][0] * os_, c['full'][1] * os_
     if c['kind'] == 'dft':
         al = [fbits(1.0 / K), fbits(1.0 / L)]
-        fs = [_fld_req(f) for f in c['fields']]
+        fs = [{**_fld_req(f), 'tilt': [fbits(sh[0]), fbits(sh[1])]} if sh != [0.0, 0.0] else _fld_req(f)
+              for f, sh in zip(c['fields'], _shifts(c))]
         return [{'op': 'c05.window', 'fields': fs, 'alpha': al,
-                 'window': [b[1] - b[0], b[3] - b[2], b[0] - S[0] // 2, b[2] - S[1] // 2]} for (_, S, b) in _boxes(c)]
+                 'window': [b[1] - b[0], b[3] - b[2], b[0] - S[0] // 2, b[2] - S[1] // 2]} for (_, S, b) in _boxes(c) if b is not None]
     if c['kind'] == 'fft':
         return [{'op': 'c05.fft', 'fields': [_fld_req(f) for f in c['fields']], 'fft_shape': [K, L]}]
     im = c['amp_im'] if c['amp_im'] is not None else [0.0] * len(c['amp'])
@@ -258,10 +339,12 @@ def compare(c, io, mo):
         if not m.get('ok'): return f"model refused: {m.get('err')}"
     if c['kind'] == 'dft':
         tol = TOL * (1 + _power(c))
-        for (name, S, b), m in zip(_boxes(c), mo):
+        it = iter(mo)
+        for (name, S, b) in _boxes(c):
             got = _arr(io[name])
             if got.shape != tuple(S): return f'{name}: intensity shape {got.shape}, expected {tuple(S)}'
-            want = np.zeros(S); want[b[0]:b[1], b[2]:b[3]] = _marr(m['I'])
+            want = np.zeros(S)
+            if b is not None: want[b[0]:b[1], b[2]:b[3]] = _marr(next(it)['I'])
             d = float(np.max(np.abs(got - want)))
             if not d <= tol: return f'{name}: max |impl - model| intensity = {d:.3e} > {tol:.1e}'
         return None
@@ -301,21 +384,33 @@ def oracle(c, io):
         I = _arr(d)
         if I.size and I.min() < 0: return f'{k}: negative intensity {I.min()}'
     full = _arr(io['full'])
-    if not abs(full.sum() - P) <= tol:
+    fix = [int(np.fix(x)) for x in _shifts(c)[0]] if c['kind'] == 'dft' else [0, 0]
+    displaced = fix != [0, 0]
+    if not displaced and not abs(full.sum() - P) <= tol:
         return f"{c['kind']} full period {list(full.shape)}: Σ intensity = {full.sum()!r} but Σ|field|² = {P!r}"
+    if displaced and not full.sum() <= P + tol:
+        return f'tilted field: the clipped period has more energy ({full.sum()}) than the input ({P})'
+    if 'tfull' in io:
+        e = _arr(io['tfull']).sum()
+        if not abs(e - P) <= tol: return f"tilted field (shift {c['tilt']['shift']}): Σ intensity over the displaced period = {e!r} but Σ|field|² = {P!r}"
+    if 'weighted' in io:
+        d = float(np.max(np.abs(_arr(io['weighted']) - c['weight'] * full)))
+        if not d <= tol * max(1.0, c['weight']): return f"Wavefront.insert(weight={c['weight']}) differs from weight·intensity by {d:.3e}"
     if c['kind'] == 'dft':
         e2, e1 = _arr(io['w2']).sum(), _arr(io['w1']).sum()
         if not (e1 <= e2 + tol and e2 <= P + tol): return f'window energies not monotone: E(W1)={e1}, E(W2)={e2}, input power={P}'
-        # a window only selects samples of the full-period image
+        # a window only selects samples of the full-period image (compared where the full-period call evaluated them)
         K, L = full.shape
+        fb = _boxes(c)[0][2]
         for (name, S, b) in _boxes(c)[1:]:
             got = _arr(io[name])
             if got.shape != tuple(S): return f'{name}: intensity shape {got.shape}, expected {tuple(S)}'
-            want = np.zeros(S)
-            r0 = b[0] - S[0] // 2 + K // 2; c0 = b[2] - S[1] // 2 + L // 2
-            want[b[0]:b[1], b[2]:b[3]] = full[r0:r0 + b[1] - b[0], c0:c0 + b[3] - b[2]]
-            d = float(np.max(np.abs(got - want)))
-            if not d <= tol: return f'{name}: window differs from the same samples of the full-period image by {d:.3e}'
+            if b is None or fb is None: continue
+            for i in range(b[0], b[1]):
+                for j in range(b[2], b[3]):
+                    r, q = i - S[0] // 2 + K // 2, j - S[1] // 2 + L // 2
+                    if fb[0] <= r < fb[1] and fb[2] <= q < fb[3] and not abs(got[i, j] - full[r, q]) <= tol:
+                        return f'{name}: sample ({i},{j}) differs from the same sample of the full-period image by {abs(got[i, j] - full[r, q]):.3e}'
     else:
         if c['crop']:
             e = _arr(io['crop']).sum()
